@@ -37,7 +37,13 @@ CmdInfo(c) ==
     [] c = "G" -> [api |-> "Raw", cmd |-> "Raw", netfn |-> 44, num |-> 2, body |-> <<1, 0, 0>>, group |-> 220]
     [] c = "H" -> [api |-> "Raw", cmd |-> "Raw", netfn |-> 44, num |-> 7, body |-> <<1, 64, 0, 1>>, group |-> 220]
 CcByte(cc) == CASE cc = "ok" -> 0 [] cc = "err" -> 193 [] cc = "busy" -> 192 [] cc = "tmo" -> 195
-MsgFor(c, ccb, body) == B(MsgRspBytes(129, CmdInfo(c).netfn + 1, 0, 1, 0, CmdInfo(c).num, ccb, body))
+\* 13.8: the response echoes the requester's sequence number / LUN byte of the request it answers (the library is free
+\* in its choice of sequence numbers; a BMC is not): taken from the request as received - decrypted, inside a session
+SeqEcho == IF InSession THEN Slice(ReqPlain(S), 4, 5) ELSE Slice(Req, 20, 21)
+MsgFor(c, ccb, body) ==
+  LET h1 == <<129, (CmdInfo(c).netfn + 1) * 4>>
+      h2 == Cat(<< B(<<32>>), SeqEcho, B(<<CmdInfo(c).num, ccb>> \o body) >>)
+  IN  Cat(<< B(h1 \o <<Checksum(h1)>>), h2, Cksum(h2) >>)
 BodyBytes(c, mk)  == CASE c = "A" -> <<mk, 129, 2, 21, 2, 191, 162, 2, 0, 52, 18>>
                        [] c = "B" -> <<mk>> \o [i \in 1..15 |-> 200 + i]
                        [] c = "R" -> <<mk, 1, 2, 3>>
@@ -65,13 +71,13 @@ Dgram(d) ==
      THEN IF d.kind = "garbage"
           THEN CASE (d.call + d.n) % 4 = 0 -> B(<<6, 0, 255, 7, 6, 0, 1, 2>>)                                  \* too short
                  [] (d.call + d.n) % 4 = 3 -> B(<<6, 0, 255, 6, 0, 0, 17, 190, 64, 0, 0, 16, 0, 0, 17, 190, 0, 0, 0, 0, 129, 0, 0, 0, 0, 0, 0, 0>>)  \* ASF presence pong
-                 [] (d.call + d.n) % 4 = 1 -> SetByte(NullWrapper(0, msg), 18, (msg.v[3] + 1) % 256)                              \* checksum 1 wrong
-                 [] OTHER -> SetByte(NullWrapper(0, msg), -1, (msg.v[Len(msg.v)] + 1) % 256)                    \* checksum 2 wrong
+                 [] (d.call + d.n) % 4 = 1 -> AddByte(NullWrapper(0, msg), 18, 1)                              \* checksum 1 wrong
+                 [] OTHER -> AddByte(NullWrapper(0, msg), -1, 1)                    \* checksum 2 wrong
           ELSE NullWrapper(0, msg)
      ELSE CASE d.kind = "garbage" ->
                  (CASE (d.call + d.n) % 3 = 0 -> B(<<6, 0, 255, 7, 6, 192, 1, 2, 3>>)
                     [] (d.call + d.n) % 3 = 1 -> Trunc(SessPacket(S, sq, msg, iv), 30)
-                    [] OTHER -> SessPacket(S, sq, SetByte(msg, 2, (msg.v[3] + 1) % 256), iv))
+                    [] OTHER -> SessPacket(S, sq, AddByte(msg, 2, 1), iv))
             [] d.kind = "badsig"   -> SessPacketWith(S, 192, Var("sidM"), sq, msg, iv, B(Repeat(7, 20)), Ref("K2"))
             [] d.kind = "unauth"   -> NullWrapper(0, msg)
             \* unencrypted, unauthenticated IPMI payload carrying this session's ID and a plausible sequence number
